@@ -11,6 +11,7 @@ import WhVerif.Lemmas.C06IndelWindow
 import WhVerif.Lemmas.C06IndelNoRef
 import WhVerif.Lemmas.C06Affine
 import WhVerif.Lemmas.C06Filter
+import WhVerif.Lemmas.C06SecondIndel
 /-!
 # C06 — allele detection never assigns the wrong allele to an error-free read: theorems about the model
 
@@ -1286,5 +1287,137 @@ example : realignQ true (some ⟨10, 7, 15, false⟩) snv none ['G', 'C', 'G', '
     = .ok (some (1, -15)) := by
   decide
 end NonVacuityFilter
+
+/-! ## a second deletion / insertion of the same haplotype inside the window (finding F11) -/
+
+/-- the decision of `realign`, exactly: allele `k` is returned if and only if its padded sequence is strictly closer to
+the window's query than every other padded allele (any distance function; no symbolic ALT, all alleles compared) -/
+theorem realign_decision_iff (f14 : Bool) (dist : Seq → Seq → Nat) (v : Variant) (query : Seq) (cigar : Cigar)
+    (i consumed : Nat) (qp : Int) (reference : Seq) (oh : Nat) (w : Window)
+    (hsym : isSymbolic v = false) (hw : window f14 v query cigar i consumed qp reference oh = .ok w) (k : Nat) :
+    realign f14 dist v none query cigar i consumed qp reference oh = .ok (some k) ↔
+      ∃ pk, w.padded[k]? = some pk ∧ ∀ j pj, w.padded[j]? = some pj → j ≠ k → dist w.query pk < dist w.query pj := by
+  constructor
+  · exact realign_sound_only_strict f14 dist v query cigar i consumed qp reference oh w hw k
+  · rintro ⟨pk, hk, hs⟩
+    exact realign_sound_strict f14 dist v query cigar i consumed qp reference oh w hsym hw k pk hk hs
+
+/-- `window_is_padded_allele` with a second indel: the CIGAR is `A ++ W1 ++ [(op, len)] ++ W2a ++ [(uop, L)] ++ W2b ++ B`
+(`W1`, `W2a`, `W2b` runs of M/=/X operations), `(op, len)` the operation of the variant under re-alignment (an M/=/X
+block / its deletion / its insertion; `r0` = reference bases from the variant position to the end of that operation),
+`(uop, L)` a deletion (`uop = 2`) or insertion (`uop = 1`, bases `uq`) carried by the same haplotype that lies entirely
+inside the right half of the window; the read's bases are a copy of that haplotype.  Then the window's query is the
+padded carried allele WITH the second indel applied, while every padded allele has the reference there:
+`query = lp ++ a ++ g ++ uq ++ t`, `padded = [lp ++ x ++ g ++ ur ++ t | x ∈ REF :: ALTs]` with `ur` the `L` deleted
+reference bases (empty for an insertion) and `uq` the inserted bases (empty for a deletion). -/
+theorem window_is_padded_allele_second_indel (f14 : Bool) (R query : Seq) (pos : Nat) (ref a uq : Seq) (alts : List Seq)
+    (A W1 W2a W2b B : Cigar) (op len d uop L start oh r0 : Nat) (hoh : 0 < oh)
+    (hW1 : W1.all isMatchOp = true) (hW2a : W2a.all isMatchOp = true) (hW2b : W2b.all isMatchOp = true)
+    (hu : uop = 2 ∨ uop = 1) (huq : uq.length = if uop = 1 then L else 0)
+    (hshape : (isMatch op = true ∧ d < len ∧ d + ref.length ≤ len ∧ a.length = ref.length ∧ r0 = len - d)
+      ∨ (op = 2 ∧ a = [] ∧ len = ref.length ∧ d = 0 ∧ 0 < len ∧ r0 = len)
+      ∨ (op = 1 ∧ ref = [] ∧ len = a.length ∧ d = 0 ∧ 0 < len ∧ r0 = 0))
+    (hpos : pos = start + refLen A + refLen W1 + d)
+    (hR : slice R pos ref.length = ref)
+    (hin2 : r0 + refLen W2a + (if uop = 2 then L else 0) < ref.length + oh)
+    (hin : pos + r0 + refLen W2a + (if uop = 2 then L else 0) + refLen W2b ≤ R.length)
+    (hleft : oh ≤ refLen W1 + d ∨ endsWindow f14 A.reverse = true)
+    (hright : ref.length + oh ≤ r0 + refLen W2a + (if uop = 2 then L else 0) + refLen W2b ∨ endsWindow f14 B = true)
+    (hq : slice query (qLen A) (refLen W1 + d + (a.length + (r0 - ref.length + refLen W2a) + uq.length) + refLen W2b) =
+      slice R (start + refLen A) (refLen W1 + d) ++ (a ++ slice R (pos + ref.length) (r0 - ref.length + refLen W2a) ++ uq)
+        ++ slice R (pos + r0 + refLen W2a + (if uop = 2 then L else 0)) (refLen W2b)) :
+    ∃ lp t, window f14 ⟨pos, ref, alts⟩ query (A ++ W1 ++ (op, len) :: (W2a ++ (uop, L) :: (W2b ++ B))) (A ++ W1).length d
+        ((qLen (A ++ W1) + d : Nat) : Int) R oh
+      = .ok ⟨lp ++ a ++ slice R (pos + ref.length) (r0 - ref.length + refLen W2a) ++ uq ++ t,
+             (ref :: alts).map (fun x => lp ++ x ++ slice R (pos + ref.length) (r0 - ref.length + refLen W2a)
+               ++ slice R (pos + r0 + refLen W2a) (if uop = 2 then L else 0) ++ t)⟩ := by
+  obtain ⟨lw, m2, hw⟩ := window_second_indel_right f14 R query pos ref a uq alts A W1 W2a W2b B op len d uop L start oh r0
+    hoh hW1 hW2a hW2b hu huq hshape hpos hR hin2 hin hleft hright hq
+  exact ⟨_, _, hw⟩
+
+/-- F11 as a criterion.  In the situation of `window_is_padded_allele_second_indel` (no symbolic ALT), with `g` the
+reference bases between the variant and the second indel, `ur` the deleted reference bases and `uq` the inserted bases
+of the second indel: `realign` (Levenshtein distance) returns allele `k` IF AND ONLY IF `x_k ++ g ++ ur` is strictly
+closer to `a ++ g ++ uq` than `x_j ++ g ++ ur` for every other allele `j` — the paddings to the left and behind the
+second indel cancel.  So the wrong allele `k ≠ h` results exactly when replacing the carried allele by `x_k` AND
+undoing the second indel is cheaper than undoing the second indel alone; a tie gives no allele. -/
+theorem realign_second_indel_criterion (f14 : Bool) (R query : Seq) (pos : Nat) (ref a uq : Seq) (alts : List Seq)
+    (hsym : ∀ x ∈ alts, x.head? ≠ some '<')
+    (A W1 W2a W2b B : Cigar) (op len d uop L start oh r0 : Nat) (hoh : 0 < oh)
+    (hW1 : W1.all isMatchOp = true) (hW2a : W2a.all isMatchOp = true) (hW2b : W2b.all isMatchOp = true)
+    (hu : uop = 2 ∨ uop = 1) (huq : uq.length = if uop = 1 then L else 0)
+    (hshape : (isMatch op = true ∧ d < len ∧ d + ref.length ≤ len ∧ a.length = ref.length ∧ r0 = len - d)
+      ∨ (op = 2 ∧ a = [] ∧ len = ref.length ∧ d = 0 ∧ 0 < len ∧ r0 = len)
+      ∨ (op = 1 ∧ ref = [] ∧ len = a.length ∧ d = 0 ∧ 0 < len ∧ r0 = 0))
+    (hpos : pos = start + refLen A + refLen W1 + d)
+    (hR : slice R pos ref.length = ref)
+    (hin2 : r0 + refLen W2a + (if uop = 2 then L else 0) < ref.length + oh)
+    (hin : pos + r0 + refLen W2a + (if uop = 2 then L else 0) + refLen W2b ≤ R.length)
+    (hleft : oh ≤ refLen W1 + d ∨ endsWindow f14 A.reverse = true)
+    (hright : ref.length + oh ≤ r0 + refLen W2a + (if uop = 2 then L else 0) + refLen W2b ∨ endsWindow f14 B = true)
+    (hq : slice query (qLen A) (refLen W1 + d + (a.length + (r0 - ref.length + refLen W2a) + uq.length) + refLen W2b) =
+      slice R (start + refLen A) (refLen W1 + d) ++ (a ++ slice R (pos + ref.length) (r0 - ref.length + refLen W2a) ++ uq)
+        ++ slice R (pos + r0 + refLen W2a + (if uop = 2 then L else 0)) (refLen W2b))
+    (k : Nat) :
+    realign f14 lev ⟨pos, ref, alts⟩ none query (A ++ W1 ++ (op, len) :: (W2a ++ (uop, L) :: (W2b ++ B))) (A ++ W1).length d
+        ((qLen (A ++ W1) + d : Nat) : Int) R oh = .ok (some k) ↔
+      ∃ xk, (ref :: alts)[k]? = some xk ∧ ∀ j xj, (ref :: alts)[j]? = some xj → j ≠ k →
+        lev (a ++ slice R (pos + ref.length) (r0 - ref.length + refLen W2a) ++ uq)
+            (xk ++ slice R (pos + ref.length) (r0 - ref.length + refLen W2a)
+              ++ slice R (pos + r0 + refLen W2a) (if uop = 2 then L else 0))
+        < lev (a ++ slice R (pos + ref.length) (r0 - ref.length + refLen W2a) ++ uq)
+            (xj ++ slice R (pos + ref.length) (r0 - ref.length + refLen W2a)
+              ++ slice R (pos + r0 + refLen W2a) (if uop = 2 then L else 0)) := by
+  obtain ⟨lp, t, hw⟩ := window_is_padded_allele_second_indel f14 R query pos ref a uq alts A W1 W2a W2b B op len d uop L
+    start oh r0 hoh hW1 hW2a hW2b hu huq hshape hpos hR hin2 hin hleft hright hq
+  have hs : isSymbolic ⟨pos, ref, alts⟩ = false := by
+    simp only [isSymbolic, List.any_eq_false]
+    intro x hx
+    simpa using hsym x hx
+  rw [realign_decision_iff f14 lev _ query _ _ _ _ R oh _ hs hw k]
+  generalize slice R (pos + ref.length) (r0 - ref.length + refLen W2a) = g
+  generalize slice R (pos + r0 + refLen W2a) (if uop = 2 then L else 0) = ur
+  have hcancel : ∀ x y : Seq, lev (lp ++ a ++ g ++ uq ++ t) (lp ++ x ++ g ++ y ++ t) = lev (a ++ g ++ uq) (x ++ g ++ y) := by
+    intro x y
+    have e1 : lp ++ a ++ g ++ uq ++ t = lp ++ ((a ++ g ++ uq) ++ t) := by simp [List.append_assoc]
+    have e2 : lp ++ x ++ g ++ y ++ t = lp ++ ((x ++ g ++ y) ++ t) := by simp [List.append_assoc]
+    rw [e1, e2, lev_append_left, lev_append_right]
+  simp only [List.getElem?_map, Option.map_eq_some_iff]
+  constructor
+  · rintro ⟨pk, ⟨xk, hxk, rfl⟩, hall⟩
+    refine ⟨xk, hxk, ?_⟩
+    intro j xj hxj hjk
+    have := hall j _ ⟨xj, hxj, rfl⟩ hjk
+    rw [hcancel, hcancel] at this
+    exact this
+  · rintro ⟨xk, hxk, hall⟩
+    refine ⟨_, ⟨xk, hxk, rfl⟩, ?_⟩
+    rintro j pj ⟨xj, hxj, rfl⟩ hjk
+    rw [hcancel, hcancel]
+    exact hall j xj hxj hjk
+
+/-! ### non-vacuity (second indel) -/
+
+section NonVacuitySecond
+/-- reference `GGACCTTGGGG…`; insertion `ε>TT` at 5 (after `GGACC`), the haplotype also deletes the `TT` at 5..6 directly
+behind it ("twins": inserting `TT` and deleting the next `TT` is the reference again) -/
+private def Rt : Seq := ['G', 'G', 'A', 'C', 'C', 'T', 'T', 'G', 'G', 'G', 'G', 'G', 'G']
+
+/-- the read `5M 2I 2D 6M` carries the insertion (allele 1) and the deletion; the criterion says REF (allele 0) is
+strictly closest — the WRONG allele (F11) -/
+example : realign true lev ⟨5, [], [['T', 'T']]⟩ none ['G', 'G', 'A', 'C', 'C', 'T', 'T', 'G', 'G', 'G', 'G', 'G', 'G']
+    ([] ++ [(0, 5)] ++ (1, 2) :: ([] ++ (2, 2) :: ([(0, 6)] ++ []))) ([] ++ [(0, 5)]).length 0
+    ((qLen ([] ++ [(0, 5)]) + 0 : Nat) : Int) Rt 3 = .ok (some 0) := by
+  rw [realign_second_indel_criterion true Rt _ 5 [] ['T', 'T'] [] [['T', 'T']] (by decide) [] [(0, 5)] [] [(0, 6)] []
+    1 2 0 2 2 0 3 0 (by decide) (by decide) (by decide) (by decide) (Or.inl rfl) (by decide)
+    (Or.inr (Or.inr ⟨rfl, rfl, rfl, rfl, by decide, rfl⟩)) (by decide) (by decide) (by decide) (by decide)
+    (Or.inl (by decide)) (Or.inl (by decide)) (by decide) 0]
+  refine ⟨[], rfl, ?_⟩
+  intro j xj hj hne
+  match j, hj with
+  | 0, _ => exact absurd rfl hne
+  | 1, hj => simp at hj; subst hj; rw [← levFast_eq_lev, ← levFast_eq_lev]; decide
+  | j + 2, hj => simp at hj
+end NonVacuitySecond
 
 end WhVerif.Props.C06
